@@ -36,6 +36,7 @@ def cases(tier, seed, prop):
             cands = [c for c in CSS_CFGS if c.get('snippets') == tbl and 'context' not in c]
             cfgs = [copy.deepcopy(rnd.choice(cands)) for _ in range(k)]
             shared_cache = True
+            if tbl: pool_a = ['foo', 'bar', 'foo5', 'bar2', 'p10', 'foo', 'bar']      # the user snippets with numeric defaults
         else:
             cfgs = [copy.deepcopy(rnd.choice(pool_c)) for _ in range(k)]
             shared_cache = css and all(c.get('snippets') == cfgs[0].get('snippets') and 'context' not in c for c in cfgs) and rnd.random() < .5
